@@ -180,15 +180,8 @@ fn run_tape(part: &str, tape: &[u8], cx: &mut Cx) -> Res {
     match part {
         "messages" => {
             let p = gen_prefix(&mut t);
-            // what the thread encoded or decoded just before must not matter: sometimes a data message goes first
-            if t.chance(25) {
-                let d = gen_data_small(&mut t);
-                let _ = crate_encode_msg(&d);
-                if t.chance(50) {
-                    let _ = crate_decode(&encode_message(&d), STRICT);
-                }
-                cx.class("a data message was encoded on the same thread just before");
-            }
+            // what the thread encoded or decoded just before must not matter
+            crate::props::history::prior_ops(&mut t, cx, true);
             check_message(&gen_control(&mut t), &p, "messages", cx)
         }
         "bigmessages" => {
@@ -197,6 +190,7 @@ fn run_tape(part: &str, tape: &[u8], cx: &mut Cx) -> Res {
         }
         _ => {
             let p = gen_prefix(&mut t);
+            crate::props::history::prior_ops(&mut t, cx, true);
             check_avp(&gen_avp(&mut t), &p, cx)
         }
     }
